@@ -1,5 +1,6 @@
 //! atsharness — drives the real contract over generated / replayed histories and writes the
 //! trace the Lean driver judges.
+mod bfs;
 mod corpus;
 mod gen;
 mod hist;
@@ -159,6 +160,40 @@ fn main() {
             }
             fs::write(&out, trace).unwrap();
             println!("{}", stats_json(&stats, files.len() as u64));
+        }
+        "bfs" => {
+            // bfs --scope K|all --max-states N --threads T --out DIR [--emit LABEL --to FILE]
+            let scope = arg(&args, "--scope").unwrap_or_else(|| "all".into());
+            let max_states: usize = arg(&args, "--max-states").and_then(|s| s.parse().ok()).unwrap_or(2000);
+            let threads: usize = arg(&args, "--threads").and_then(|s| s.parse().ok()).unwrap_or(8);
+            let out = arg(&args, "--out").unwrap_or_else(|| ".".into());
+            let emit = arg(&args, "--emit");
+            fs::create_dir_all(&out).unwrap();
+            let n = bfs::scopes().len();
+            let mut which: Vec<usize> = if scope == "all" { (0..n).collect() } else { vec![scope.parse().unwrap_or(0)] };
+            if let Some(l) = &emit {
+                // the label names its scope: bfs_<scope>_<index>
+                which = bfs::scopes().iter().enumerate().filter(|(_, s)| l.starts_with(&format!("bfs_{}_", s.name))).map(|(i, _)| i).collect();
+            }
+            let mut total = Stats::default();
+            let mut summary = vec![];
+            let mut hists = 0u64;
+            for k in which {
+                let mut tf = std::io::BufWriter::new(fs::File::create(format!("{}/trace_bfs{}.txt", out, k)).unwrap());
+                let (o, h) = bfs::run(k, max_states, threads, |t| tf.write_all(t.as_bytes()).unwrap(), emit.as_deref());
+                if let Some(h) = h {
+                    let to = arg(&args, "--to").unwrap_or_else(|| format!("{}/{}.json", out, h.label));
+                    fs::write(&to, serde_json::to_string_pretty(&h).unwrap()).unwrap();
+                    println!("emitted {}", to);
+                    return;
+                }
+                hists += o.states as u64 + 1;
+                summary.push(format!("{{\"scope\":{},\"states\":{},\"edges\":{},\"accepted\":{},\"depth\":{}}}", k, o.states, o.edges, o.accepted, o.depth));
+                total.merge(&o.stats);
+            }
+            let sj = stats_json(&total, hists);
+            fs::write(format!("{}/stats_bfs.json", out), format!("{{\"bfs\":[{}],\"stats\":{}}}", summary.join(","), sj)).unwrap();
+            println!("[{}]", summary.join(","));
         }
         "mkcorpus" => {
             let out = arg(&args, "--out").unwrap_or_else(|| "corpus".into());
